@@ -332,7 +332,10 @@ void AnalyzerInformation::reopen(const std::string &buildDir, const std::string 
     ifs.close();
 
     std::string content = iss.str();
-    content.resize(content.find("</analyzerinfo>"));
+    const std::string::size_type endTag = content.find("</analyzerinfo>");
+    if (endTag == std::string::npos)
+        return; // incomplete file (the process which wrote it did not finish) - leave it as it is so it gets discarded
+    content.resize(endTag);
 
     VERIF_EVT("AiReopen", verif::kv("afile", analyzerInfoFile) + verif::kv("src", sourcefile) + verif::kb("hasEnd", iss.str().find("</analyzerinfo>") != std::string::npos));
     mOutputStream.open(analyzerInfoFile, std::ios::trunc);
